@@ -35,7 +35,7 @@ EXPECTED_PROBES = ["probe_dispatch_exact", "probe_dispatch_early", "probe_dispat
                    "probe_redefine", "probe_callback_raised", "probe_interval0", "probe_true_return_other_than_1",
                    "probe_callback_name_rebound_to_value", "probe_tick_while_name_holds_a_value",
                    "probe_callback_function_known_under_another_name_before", "probe_timer_whose_handle_is_not_kept",
-                   "probe_computed_interval", "probe_timer_created_again_after_raise", "probe_timer_created_again_after_stop", "probe_timerc_after_callback_raised",
+                   "probe_computed_interval", "probe_timer_created_again_after_raise", "probe_timer_created_again_after_stop", "probe_timerc_after_callback_raised", "probe_callback_left_through_a_base_exception",
                    "probe_cancel_from_another_thread", "probe_thread_cancel_overlaps_callback",
                    "line_preemptions_hot"]
 WALL_CAP = {"quick": 300, "thorough": 3600}
@@ -166,7 +166,13 @@ def scenario(ch, cfg):
             T["stopped_at"] = ("timerc", len(T["ticks"]) - 1, w.now)
         return int(v)
 
+    class _Abort(BaseException):
+        """a callback left through something that is not an Exception (Klong's own .x, an interrupt, a cancellation)"""
+
     def boom():
+        if ch.draw(3, "boomkind") == 0:
+            stats["probe_callback_left_through_a_base_exception"] += 1
+            raise _Abort("scripted callback failure")
         raise RuntimeError("scripted callback failure")
 
     def raised(x):
@@ -392,7 +398,7 @@ def scenario(ch, cfg):
 
     def on_loop_exception(l, ctx):
         exc = ctx.get("exception")
-        if isinstance(exc, RuntimeError) and "scripted callback failure" in str(exc):
+        if isinstance(exc, (RuntimeError, _Abort)) and "scripted callback failure" in str(exc):
             return
         if xthread and isinstance(exc, AttributeError) and "'cancel'" in str(exc):
             # two cancellations of one timer racing inside KGTimerHandler.cancel (both saw a delegate, one cleared it): the
